@@ -189,6 +189,38 @@ theorem constructNameid_issued {K : Consts} {cfg : Cfg} {users : List Str} {P : 
     simp only at h
     exact getNameid_issued' inv hu hc (hem fmt hcf) h
 
+theorem sameQual_self (n : NameId) : sameQual n n.spq n.nq = true := by simp [sameQual]
+
+/-- every answer of `get_nameid` has the format and the qualifiers that were asked for -/
+theorem getNameid_quals {K : Consts} {cfg : Cfg} {users : List Str} {P : DB} (inv : Inv K users P)
+    {u : Str} (hu : u ∈ users) {fmt : Str} {spq nq : Option Str} {cands : List Str}
+    (hc : candsOk users cfg cands = true)
+    (hem : fmt = K.email → ∀ c ∈ cands, P.get (c ++ 64 :: cfg.domain) = none)
+    {n : NameId} {Q : DB} (h : getNameid K cfg P u fmt spq nq cands = .ok (n, Q)) :
+    n.fmt = some fmt ∧ sameQual n spq nq = true := by
+  rcases getNameid_issued inv hu hc hem h with ⟨hf, hr, _⟩ | ⟨_, h1, h2, h3, _, _⟩
+  · obtain ⟨_, h1, h2⟩ := regIn_mem hr
+    exact ⟨by rw [h1, hf], h2⟩
+  · subst h2; subst h3
+    exact ⟨h1, sameQual_self n⟩
+
+theorem constructNameid_quals {K : Consts} {cfg : Cfg} {users : List Str} {P : DB} (inv : Inv K users P)
+    {u : Str} (hu : u ∈ users) {lf spq nq : Option Str} {pol : Option Policy} {cands : List Str}
+    (hc : candsOk users cfg cands = true)
+    (hem : ∀ fmt, constructFmt lf pol = some fmt → fmt = K.email → ∀ c ∈ cands, P.get (c ++ 64 :: cfg.domain) = none)
+    {n : NameId} {Q : DB} (h : constructNameid K cfg P u lf spq pol nq cands = .ok (n, Q)) :
+    n.fmt = constructFmt lf pol ∧ normF n.spq = normF (constructSpq spq pol) := by
+  unfold constructNameid at h
+  cases hcf : constructFmt lf pol with
+  | none => rw [hcf] at h; simp at h
+  | some fmt =>
+    rw [hcf] at h
+    simp only at h
+    obtain ⟨h1, h2⟩ := getNameid_quals inv hu hc (hem fmt hcf) h
+    unfold sameQual at h2
+    simp only [Bool.and_eq_true, beq_iff_eq] at h2
+    exact ⟨h1, h2.1⟩
+
 theorem Issued.inv {K : Consts} {users : List Str} {P Q : DB} {u : Str} {n : NameId}
     (i : Issued K users P u n Q) (inv : Inv K users P) : Inv K users Q := by
   cases i with
